@@ -225,7 +225,13 @@ PROPS = {
             "PROVED (all argument texts and declarations): parse_directive_arguments returns between `required` and "
             "`required+optional` arguments or raises MarkupError; with no surplus the words themselves, with surplus only "
             "when final_argument_whitespace is declared, folded into the last argument (str.split(None, k) modelled by its "
-            "item count).  BOUNDED for the rest: parse_directive_text against a line-level reference model taken from the statement "
+            "item count); parse_directive_text (str.splitlines uninterpreted, _parse_directive_options by an assumed contract that says "
+            "nothing about its content): a body starting on the first line is that line at offset 0 followed by the other "
+            "lines; otherwise, without an option spec, the body IS the content's lines from body_offset on (0 or 1: at most one "
+            "leading blank line is dropped, and it is counted); with an option spec len(body) + body_offset equals the "
+            "number of content lines (WHICH lines survive is _parse_directive_options' business - its known findings "
+            "C08-trailing-blank-offset / C08-closing-delimiter-text live there); a directive without arguments gets none.  BOUNDED for the rest (what "
+            "_parse_directive_options does with the option block): parse_directive_text against a line-level reference model taken from the statement "
             "(body = the content lines after the option block minus one optional leading blank line; offset = index of the "
             "first body line) for every content of up to 3/4 lines over an option/blank/text/delimiter vocabulary x 5 "
             "directive classes x first line; interchangeability of the two option styles, conversion by the directive's "
@@ -234,7 +240,7 @@ PROPS = {
         ),
         assumptions=[],
         trusted_base=["docutils 0.21.2 directive classes and option converters (the 'programs')"],
-        technique="contract-based deductive verification of parse_directive_arguments; bounded run-time stand-in (exhaustive small contents x directive classes) for the partition/option clauses",
+        technique="contract-based deductive verification of parse_directive_arguments and parse_directive_text; bounded run-time stand-in (exhaustive small contents x directive classes) for the partition/option clauses",
     ),
     "C13": dict(
         level="other",
@@ -270,7 +276,7 @@ PROPS = {
     ),
     "C04": dict(
         level="other",
-        contracts=["contracts.lines"],
+        contracts=["contracts.lines", "contracts.directives"],
         flow=["checks.flow_lines:run"],
         harness=True,
         explanation=(
@@ -282,9 +288,9 @@ PROPS = {
             "nested_render_text hands to _render_tokens exactly the tokens parsed from `text` (+ final newline; minus a "
             "leading front-matter token) with every mapped token starting `lineno` lines below where the parser saw it - "
             "so node.line = parser line + lineno + 1 for text found at 0-based offset lineno - and restores the heading "
-            "offset.  FLOW: no other store to a `.map` attribute exists in the package (frame of the above).  NOT under "
-            "contract: the offsets callers pass as `lineno` (run_directive / MockState.nested_parse / parse_directive_text "
-            "body_offset / include), hence BOUNDED: generated documents whose generator knows the first line of "
+            "offset; parse_directive_text's body_offset counts exactly the content lines in front of the body (see C08).  FLOW: no other store to a `.map` attribute exists in the package (frame of the above).  NOT under "
+            "contract: the offsets callers pass as `lineno` (run_directive / MockState.nested_parse / _parse_directive_options / "
+            "include), hence BOUNDED: generated documents whose generator knows the first line of "
             "every construct (paragraph, heading, list item, code block, raw HTML, table) nested up to depth 3 in block "
             "quotes, lists, backtick and colon directives with no / ':'-style / '---'-style option blocks and optional blank "
             "line before the body; warning lines of roles planted at known lines; included files (line relative to the "
